@@ -251,7 +251,7 @@ def run(ctx):
     rng = ctx.rng
     # ---- part 1: Canonicalize on generated lists and on permutations of them
     lists = list(canon_corpus())
-    for k in range(ctx.budget(170, 12000)):
+    for k in range(ctx.budget(140, 12000)):
         n = rng.choice([0, 1, 2, 3, 4, 5, 6, 8, 11, 12, 13, 14, 20, 30, ctx.budget(16, 60)])
         lists.append(gen_list(rng, n, small=rng.chance(2, 3), sentinel=(k % 7 == 0)))
     ins, meta = [], []
@@ -368,7 +368,7 @@ def run(ctx):
                 files.append({"path": p, "text": t})
         if files:
             wss.append((files, [f["path"] for f in files], "testdata-combined"))
-    for _ in range(ctx.budget(90, 4000)):
+    for _ in range(ctx.budget(70, 4000)):
         files, ws = gen_workspace(rng)
         wss.append((files, ws, "generated"))
     reps = ctx.budget(3, 8)
